@@ -94,6 +94,15 @@ def run(chk):
              "max depth": md, "temperature models": [m]}
         w = {"version": "1.1", "thermal diffusivity": kappa, "coordinate system": {"model": "spherical", "depth method": "begin segment"},
              "features": [f]}
+        if wi % 2 == 1:
+            # an oblique ridge: the two longitude copies of a point project to different ridge points, with different velocities
+            m["ridge coordinates"] = [[[round(lon_r - 3.0, 1), -20.0], [round(lon_r + 3.0, 1), 20.0]]]
+            m["spreading velocity"] = [[0.0, [vels[:2]]]]
+            slot = cs.add_world(w)
+            for _k in range(40):
+                dd = float(round(rng.uniform(0.0, md)))
+                cs.single3(slot, "t3", cart_point(True, base + rng.uniform(-33, 33), rng.uniform(-38, 38), dd, 6371000.0, TOP), dd)
+            continue
         slot = cs.add_world(w)
         lat = round(rng.uniform(-15, 15), 2)
         d = float(round(rng.uniform(0.05, 0.9) * md))
